@@ -81,6 +81,12 @@ func runLMTPStub(raw *SimConn, s *StubScript, h *StubHistory) {
 			if code == 250 {
 				accepted++
 				write("250 2.1.5 recipient ok\r\n")
+			} else if code == 251 {
+				accepted++
+				write("251 2.1.5 user not local, will forward\r\n")
+			} else if code == 252 {
+				accepted++
+				write("252 2.1.5 cannot verify the user, will take the message\r\n")
 			} else {
 				write(itoa(code) + " 5.1.1 no such recipient\r\n")
 			}
